@@ -3,14 +3,14 @@ CONSTANTS
   NoKey = "<nokey>"
   NoAccept = ""
   AcceptOf <- MCAcceptOf
-  Keys = {"k16"}
+  Keys = {"k16", "kEmpty", "k1", "k200", "kColon", "kSpace", "kPunct", "k24", "kDigits", "kEq", "kUtf8", "k1000"}
   ScriptKey = "k16"
   Modes = {"blocking", "nonblocking"}
   Echoes = {TRUE, FALSE}
-  Plans = {"whole", "hdr", "key", "pay"}
-  Frames <- FramesQuick
-  MaxFrames = 3
+  Plans = {"whole", "hdr", "ext", "key", "pay", "each", "bytes"}
+  Frames <- FramesThorough
+  MaxFrames = 2
 INIT MCInit
 NEXT MCNext
-INVARIANTS GenInv
+INVARIANTS TypeOK Inv_Handshake Inv_WellFormedOut Inv_Delivered Inv_PingPong Inv_Close GenInv
 CHECK_DEADLOCK FALSE
